@@ -728,18 +728,22 @@ def replay_known(ctx, finding):
     return not ok
 
 
-LEVEL_TEXT = ("Lean theorems over ALL pixels / words / sizes: per format load(save p) = documented quantisation and "
-              "save(load(save p)) = save p (C15_exact_*, C15_quant_*, C15_words_*), proved through a verified bit-routing "
-              "decision procedure (no enumeration) on the codec expressions, which are regenerated from the Python source "
-              "and proved equal to the model's (C15_gen_codecs); mipmap chain of the constructor = sizes the reader computes "
-              "(C15_mips), bilinear scale_down = floor average of the 2x2/2x1/1x2 block (C15_bilinear), pixel access "
-              "succeeds iff in range (C15_bounds), frame keys = product of the header counts (C15_keys), reader and writer "
-              "lay the frames out identically (C15_layout). save/read bytes, resource table and sheet data are tied by a "
-              "byte-for-byte differential run of model vs implementation.")
+LEVEL_TEXT = ("Lean theorems over ALL pixels / words / sizes: for the 18 lawful writable formats load(save p) = documented "
+              "quantisation and save(load(save p)) = save p, also for whole RGBA arrays (C15_exact_*, C15_quant_*, C15_roundtrip, "
+              "C15_idempotent, C15_frame_roundtrip), every stored 16-bit word is a fixed point (C15_words_*), proved through a "
+              "verified bit-routing decision procedure on the codec expressions (no enumeration); the expressions are regenerated "
+              "from the Python source by symbolic execution and proved equal to the model's (C15_gen_codecs). RGB565/BGR565 are an "
+              "open finding: C15_565_defect proves the law false for the code as it is, C15_quant_565_partial the strongest true "
+              "statement, C15_565_repaired that the blocked patch is right. Constructor mip chain = sizes the reader computes "
+              "(C15_mips), scale_down = floor average / corner pixel (C15_bilinear, C15_nearest), pixel access succeeds iff in "
+              "range (C15_bounds), stored frame keys = product of the header counts (C15_keys), writer and reader lay frames out "
+              "identically (C15_layout). save/read bytes incl. resource table and sheet data are tied by a byte-for-byte "
+              "differential run of model vs implementation.")
 LEVEL_NOTE = ("Trusted: Lean kernel + propext/Classical.choice/Quot.sound; tools/gen_vtf.py; the harness. The whole-file "
-              "header/resource/sheet round trip is established by correspondence and direct search, not by a Lean theorem. "
-              "DXT/ATI block codecs and the Cython twin's control flow are not covered.")
+              "header/resource/sheet round trip is established by byte-exact correspondence and direct search, not by a Lean "
+              "theorem. Open known finding: RGB565/BGR565 exchange red and blue (repair blocked by the repository's reference "
+              "files). DXT/ATI block codecs and the Cython twin's control flow are not covered.")
 TECHNIQUE = ("Lean 4: codecs as expression data + sound abstract interpretation (bit routing) decided by `decide`; induction for "
-             "mip chains and frame tables; translator (symbolic execution of the Python codecs over ast) + exhaustive "
-             "65 536-word and grid differential correspondence; direct round-trip search on the implementation")
+             "mip chains, frame tables and chunked images; translator (symbolic execution of the Python codecs over ast) + exhaustive "
+             "65 536-word and grid differential correspondence + byte-exact file model; direct round-trip search on the implementation")
 DESIGN_REF = "DESIGN.md section 6, C15"
